@@ -121,6 +121,9 @@ func genC02(t *rapid.T) c02Scenario {
 			sc.Ops = append(sc.Ops, c02Op{Kind: "alertgc"})
 		case k < 14:
 			sc.Ops = append(sc.Ops, c02Op{Kind: "reload"})
+		case k < 17 && rapid.IntRange(0, 3).Draw(t, "aborted") == 0:
+			// a mute query on behalf of a request that was aborted (its context is already cancelled)
+			sc.Ops = append(sc.Ops, c02Op{Kind: "mutes-aborted"})
 		case k < 17:
 			sc.Ops = append(sc.Ops, c02Op{Kind: "advance", Dt: rapid.SampledFrom([]int{1, 10, 25, 45, 70, 130, 400, 1000, 4000}).Draw(t, "dt")})
 		default:
@@ -327,6 +330,16 @@ func execC02(sc c02Scenario) (res pbt.Result) {
 				wireA()
 				silencer = silence.NewSilencer(A, nopLog, eventrecorder.NopRecorder())
 				gcOrReload = true
+			case "mutes-aborted":
+				// the verdict of an aborted query is nobody's business, but it must not leave anything behind that
+				// falsifies later verdicts
+				cctx, ccancel := context.WithCancel(ctx)
+				ccancel()
+				for j, ls := range universe {
+					if (j+i)%2 == 0 {
+						silencer.Mutes(marker.WithContext(cctx, marker.NewAlertMarker()), toLabelSet(ls))
+					}
+				}
 			case "mutes":
 				all, _, err := A.Query(ctx)
 				if err != nil {
